@@ -363,7 +363,16 @@ fn shard(seed: u64, shard: u64, n: u64) -> Tally {
 /// first parameter name and stays signed; UTF-16 text behind a UTF-16 BOM is not UTF-8 and must be refused.
 fn bom_bodies(seed: u64, shard: u64, n: u64) -> Tally {
     let mut t = Tally::new();
-    let bodies: [(&str, &[u8], bool); 7] = [
+    let bodies: [(&str, &[u8], bool); 15] = [
+        // components that consist of white space only are parameters like any other (a name of one line feed, one space …)
+        ("blank-component-lf-last", b"Action=ListUsers&Version=2010-05-08&\n", true),
+        ("blank-component-crlf-last", b"a=1&\r\n", true),
+        ("blank-component-only", b"\n", true),
+        ("blank-component-space-middle", b"a=1& &b=2", true),
+        ("blank-component-tab-first", b"\t&a=1", true),
+        ("blank-component-ideographic-space", b"a=1&\xe3\x80\x80", true),
+        ("edge-whitespace-in-values", b" a=1&b=x\n", true),
+        ("nbsp-at-the-end", b"a=1&b=x\xc2\xa0", true),
         ("utf8-bom-then-pairs", b"\xef\xbb\xbfa=1&b=2", true),
         ("utf8-bom-only", b"\xef\xbb\xbf", true),
         ("utf8-bom-inside", b"a=1&\xef\xbb\xbfb=2", true),
